@@ -705,6 +705,10 @@ func runWorldModeX(cfg *runCfg, name string, kf1 bool, live bool) error {
 			w = directedWorld(r, rep, cfg.seed*100000+18)
 			w.splitSyncScript()
 			rep.count("world:directed-split-sync-script")
+		} else if !kf1 && i == 19 {
+			w = directedWorld(r, rep, cfg.seed*100000+19, 1)
+			w.wrongHeightProposalScript()
+			rep.count("world:directed-wrong-height-proposal-script")
 		} else {
 			w.run()
 		}
